@@ -11,9 +11,9 @@ Quirks of the code that are modelled as they are:
 * `AddPart` checks `Index >= total` and then indexes `parts[Index]`: a negative
   index panics (`index out of range`) BEFORE anything is mutated → `panicRange`, state unchanged.
 * `AddPart(nil)` dereferences the nil part → `panicNil`, state unchanged.
-* `Proof.Verify` compares with `bytes.Equal`, and `computeHashFromAunts` reports a
-  malformed aunt list as a nil hash: a set created from a header with an EMPTY hash
-  accepts malformed proofs (`goBytesEqual none [] = true`).
+* `computeHashFromAunts` reports a malformed aunt list as a nil hash; `Proof.Verify` rejects a nil
+  computed hash explicitly (fix 96b4d2262f; before it, a header with an EMPTY hash accepted
+  malformed proofs through `bytes.Equal(nil, [])`).
 * `GetReader` on a complete set with `total = 0` indexes `parts[0]` → `panic:range`.
 * `bitarray.NewBitArray(0)` is nil; `SetIndex` out of range is a no-op: `List.set`.
 The mutex is not modelled (each method body is one atomic step).
